@@ -80,6 +80,11 @@ CHECKS = {
         technique="TLA+ design spec Collect (file-selection walk vs contract, all trees depth<=2, <=5 entries, every target) model-checked by TLC; generated directory trees run through the real `sfw check [--strict]` / `sfw scan`, an independent go/parser oracle lists every function/method/literal with body, runs validated by TLC against CollectContract",
         text="TLC proves the walk selects exactly the files the contract requires for all small trees and targets; 4 (thorough 12) seeded trees (nested packages, multi-file packages, methods, nested closures, generics, init functions, test-like and hidden names, vendor/hidden directories incl. as the target itself, uncompilable and oversize files) are checked and scanned, and every report is validated: every required file reported, no silent empty entry, every function attributed to its real file and line, unanalysable files carry an error, strict mode fails exactly when an entry has an error, scan counts cover all functions.",
         note=TRUST + "; blank functions excluded; files the Go tool ignores count as unanalysable; unreadable files not generated (root)"),
+    "C17": dict(
+        level="model_checking", ref="3/C17",
+        technique="TLA+ design spec ZipperWork (one matchUsers call with capped fingerprint buckets, all user sequences) model-checked by TLC; work-bound contract WorkContract validated by TLC on the comparison counters of the real zipper (hook H3) and on completion/guard facts of the real pipeline over adversarial families at doubling sizes",
+        text="TLC proves comparisons <= |usersOld| * Cap, lock-step maps and sound pairing for every old/new user sequence (<=3, thorough <=4 users) and shows the bound fails without the cap; the real zipper is run on generated (old,new) pairs of eight adversarial families up to 4000 (thorough 16000) operations, 90 nested loops, 8000 blocks, 4 MB literals, with per-call and per-diff comparison counts validated against bounds in the logged sizes; the whole fingerprint+topology pipeline must complete without panic and apply its documented size guards.",
+        note=TRUST + "; only the zipper has an operation counter; other stages are bounded through completion within a 120 s backstop; fuzz-mutated sources not included"),
 }
 
 NOT_YET = {}
